@@ -783,6 +783,114 @@ def small_histories(kind, depth, toggles):
         for seq in itertools.product(alpha, repeat=d):
             yield [('create', 0, 1, hints)] + list(seq) + probes + [('close', 0)]
 
+# ------------------------------------------------------------------ attribute-list churn (targeted family)
+_COLL = {}
+def colliding_names(hsize, count, rng):
+    """`count` short distinct legal names in ONE bucket of a table of `hsize` entries under the model's hash"""
+    key = (hsize, count)
+    if key not in _COLL:
+        buckets = {}
+        alphabet = b'abcdefghijklmnopqrstuvwxyz0123456789_'
+        for a in alphabet[:26]:
+            for b in alphabet:
+                for c in alphabet:
+                    n = bytes([a, b, c])
+                    l = buckets.setdefault(bernstein(n, hsize), [])
+                    l.append(n)
+                    if len(l) >= count:
+                        _COLL[key] = l
+                        break
+                if key in _COLL: break
+            if key in _COLL: break
+    return list(_COLL[key])
+
+def churn_probes(s, v, names):
+    """dump by id, then every surviving (and a few dead) names by name"""
+    out = [('inq', s)]
+    for n in names:
+        out.append(('inq_attid', s, v, n))
+    for n in names[:3]:
+        out.append(('get_att', s, v, n))
+    return out
+
+def churn_history(rng, fixed=None):
+    """one attribute list (global or of one variable) of 4-8 attributes whose names share a bucket (tiny hash size
+    hints, or colliding names under the default sizes); rename_att / del_att / put_att in random order, each followed
+    by the dump by id and by-name lookups of all surviving attributes; the same again after enddef, after redef and
+    after close + open.  All operations are legal, so the bookkeeping of live names is exact."""
+    mode = rng.below(3)                      # 0: size 1, 1: size 2, 2: default sizes with colliding names
+    isvar = rng.chance(1, 2)
+    hs = [1, 2, None][mode]
+    eff = hs if hs else (8 if isvar else 64)
+    pool = colliding_names(eff, 14, rng)
+    rng.shuffle(pool)
+    hints = (None, None, None, hs) if isvar else (None, None, hs, None)
+    fmt = rng.choice([1, 2, 5])
+    ops = [('create', 0, fmt, hints)]
+    v = -1
+    if isvar:
+        ops.append(('def_var', 0, b'v', 4, [])); v = 0
+    k = rng.range(4, 8)
+    live = pool[:k]; spare = pool[k:]
+    for i, n in enumerate(live):
+        ops.append(('put_att', 0, v, n, 4, [i, i + 1]))
+    ops += churn_probes(0, v, live)
+    if fixed is not None:
+        steps = fixed(live, spare)
+    else:
+        steps = None
+    nsteps = rng.range(3, 10)
+    stage = 0                                # 0 define, 1 data, 2 define again
+    for t in range(nsteps if steps is None else len(steps)):
+        if steps is not None:
+            kind, a, b = steps[t]
+        else:
+            r = rng.below(10)
+            indef = stage != 1
+            if r < 4 and live and spare:
+                kind, a, b = 'ren', rng.choice(live), rng.choice(spare)
+            elif r < 7 and len(live) > 1 and indef:
+                kind, a, b = 'del', rng.choice(live), None
+            elif r < 8 and spare and indef:
+                kind, a, b = 'new', rng.choice(spare), None
+            elif live:
+                kind, a, b = 'over', rng.choice(live), None
+            else:
+                continue
+        if kind == 'ren':
+            ops.append(('rename_att', 0, v, a, b)); live[live.index(a)] = b; spare.remove(b); spare.append(a)
+        elif kind == 'del':
+            ops.append(('del_att', 0, v, a)); live.remove(a); spare.append(a)
+        elif kind == 'new':
+            ops.append(('put_att', 0, v, a, 4, [7])); live.append(a); spare.remove(a)
+        else:
+            ops.append(('put_att', 0, v, a, 4, [t]))
+        ops += churn_probes(0, v, live + spare[:1])
+        if steps is None and rng.chance(1, 5):
+            if stage == 0:
+                ops += [('enddef', 0)] + churn_probes(0, v, live); stage = 1
+            elif stage == 1:
+                ops += [('redef', 0)] + churn_probes(0, v, live); stage = 2
+    if stage != 1:
+        ops += [('enddef', 0)] + churn_probes(0, v, live)
+    ops += [('redef', 0)] + churn_probes(0, v, live)
+    ops += [('close', 0), ('open', 0, 1, hints)] + churn_probes(0, v, live) + [('close', 0)]
+    return ops
+
+def churn_fixed_family():
+    """every (rename x -> fresh colliding name, delete y) pair and (delete y, rename x) pair over a list of 5"""
+    fam = []
+    for order in (0, 1):
+        for x in range(5):
+            for y in range(5):
+                if x == y:
+                    continue
+                def f(live, spare, x=x, y=y, order=order):
+                    a, b, z = live[x], live[y], spare[0]
+                    return [('ren', a, z), ('del', b, None)] if order == 0 else [('del', b, None), ('ren', a, z)]
+                fam.append(f)
+    return fam
+
 SMALL_NAMES = None
 def init_small_names():
     """three short names in the same bucket of a 2-entry table under the model's hash, one of them with a
@@ -962,12 +1070,31 @@ def run(ctx):
             ctx.cov['evaluations'] += max(0, len(hs) - 3)
             judge(ctx, hist, r, impl, mexe, wd, reported, 'exhaustive %s histories depth<=%d' % (kind, depth), small=hs)
 
+    # ---- (5) attribute-list churn: lists of 4-8 attributes in one bucket, rename/delete/put in random order,
+    #      by-name and by-id lookups of all survivors after every step, after enddef/redef and close/open
+    cr = rng.fork('churn')
+    chs = [churn_history(cr.fork('f%d' % i), fixed=f) for i, f in enumerate(churn_fixed_family())
+           for _ in range(2 if thorough else 1)]
+    chs += [churn_history(cr.fork('c%d' % i)) for i in range(6000 if thorough else 360)]
+    cb = [chs[i:i + 60] for i in range(0, len(chs), 60)]
+    def onec(x):
+        i, hs = x
+        hist, r = run_batch(hs, impl, mexe, wd, 'c%d' % i)
+        return hs, hist, r
+    with cf.ThreadPoolExecutor(max_workers=8) as ex:
+        for hs, hist, r in ex.map(onec, enumerate(cb)):
+            dist['attr_churn_histories'] = dist.get('attr_churn_histories', 0) + len(hs)
+            for hh in hs[:2]:
+                ctx.count('churn ' + hist_repr(dict(nprocs=1, nslots=1, ops=hh)), nontrivial=True)
+            ctx.cov['evaluations'] += max(0, len(hs) - 2)
+            judge(ctx, hist, r, impl, mexe, wd, reported, 'attribute-list churn', small=hs)
+
     ctx.cov['rule'] = ('random histories of 30-160 API calls over 1-2 files (formats 1/2/5), 1-2 ranks, name-table hint sizes '
                        'from {none,1,2,3,4,5,6,8,16,64,256,negative}; name pool of 6-14 names searched so that most share one '
                        'bucket of the largest table under the model\'s own hash, lengths up to 256 and beyond, UTF-8 '
                        'composed/decomposed pairs, illegal names; every return code, id, inquiry dump, lookup and on-disk '
                        'header compared with the extracted Coq model; plus all histories of <= 2-3 (quick) / <= 4 (thorough) ops '
-                       'over 3 colliding names for attributes, dimensions, variables. Non-trivial = at least one successful '
+                       'over 3 colliding names for attributes, dimensions, variables; plus a targeted family: one attribute list of 4-8 names sharing a bucket (hash size 1, 2, or default size with colliding names), rename_att/del_att/put_att in random order (and every rename-then-delete / delete-then-rename pair over a list of 5), each step followed by the dump by id and by-name lookups of all survivors, repeated after enddef, redef and close+open. Non-trivial = at least one successful '
                        'rename/delete/overwrite/copy after a successful definition (from the library\'s own return codes).')
     ctx.cov['distribution'] = dist
 
